@@ -53,6 +53,7 @@ Theorem C18_robust_insensitive_read : forall (B : Type) (w : wr B) (j : nat) (po
   (forall d d', length d = len -> agree B w j post off d d' -> robust B w j post (k d) (k' d')) ->
   robust B w j post (PRead off len k) (PRead off len k').
 Proof. exact robust_insensitive_read. Qed.
+Print Assumptions C18_robust_insensitive_read.
 Print Assumptions C18_robust_final_read.
 
 (* ---------- what the converters write, in which order (GENERATED from conversion.py / conversion_utils.py) ---------- *)
@@ -62,10 +63,12 @@ Theorem C18_write_order :
   numpy_write_order = [WHeader; WBlocks; WFooter Always; WPatch 960 20 Always] /\
   loop_joins_then_flushes = true /\ header_bytes_len = 8192.
 Proof. exact (conj segy_order (conj numpy_order loop_flushes)). Qed.
+Print Assumptions C18_write_order.
 (* header first, blocks second; patches only inside bytes 64..68 and 960..2048 of the header (every size the reader
    derives its layout from is final from the first write on); once a footer array may exist only the hash is pending *)
 Theorem C18_write_order_ok : order_okb segy_write_order = true /\ order_okb numpy_write_order = true.
 Proof. exact write_orders_ok. Qed.
+Print Assumptions C18_write_order_ok.
 Theorem C18_pending_patches :
   pending_patches true false segy_write_order 2 = [(64, 4); (980, 1068); (960, 20)] /\
   pending_patches false false segy_write_order 2 = [(960, 20)] /\
@@ -111,10 +114,12 @@ Theorem C18_thorough_before_patch : forall rows count, thorough_table_okb rows =
 Proof.
   intros rows count OK DK. exact (conj (thorough_before_patch rows count OK DK) (fun s k h => initial_rows_all_offsets rows s k h OK)).
 Qed.
+Print Assumptions C18_thorough_before_patch.
 (* ... count patched but not the table: refused ... *)
 Theorem C18_thorough_count_only : forall rows, thorough_table_okb rows = true -> distinct_keys rows = true ->
   n_variant rows <> length rows -> open_table (map initial_row rows) (Z.of_nat (n_variant rows)) = Raise AssertErr.
 Proof. exact thorough_count_only. Qed.
+Print Assumptions C18_thorough_count_only.
 (* ... table patch stopped at ANY row boundary: refused, or already the final table *)
 Theorem C18_thorough_row_tear : forall rows j, thorough_table_okb rows = true -> distinct_keys rows = true ->
   open_table (torn_table rows j) (Z.of_nat (n_variant rows)) = Raise AssertErr \/ torn_table rows j = rows.
@@ -128,6 +133,7 @@ Theorem C18_hash_before_patch_refuted :
   run nat read_range_file_checked check_range_length_raises (crash nat pre w 0) p_hash = Return (repeat 0%nat 20) /\
   run nat read_range_file_checked check_range_length_raises (complete nat pre w []) p_hash = Return (repeat 7%nat 20).
 Proof. exact hash_before_patch_refuted. Qed.
+Print Assumptions C18_hash_before_patch_refuted.
 (* (2) a table patch that stops INSIDE the value bytes of the last constant row: the count matches and the reader
    takes the low bytes for the constant *)
 Theorem C18_torn_value_refuted :
@@ -149,3 +155,4 @@ Example C18_nonvacuous :
    open_table rows 2 = Return [(1, HOffset 0); (5, HConst 4000); (9, HOffset 1); (13, HConst 0)] /\
    torn_table rows 2 = [(1, 0, 1); (5, 4000, 0); (9, 0, 9); (13, 0, 13)]).
 Proof. exact (conj c18_witness c18_table_witness). Qed.
+Print Assumptions C18_nonvacuous.
